@@ -690,7 +690,19 @@ template <size_t L> struct X {
    }
 
    // discovery: fixed point of the state set under all mutating families (silent: reports come from the sharded pass)
+   bool seeds_only = false;
+   // Large capacities (255/256: the boundary of the 8/16 bit length type): no closure - the object images are too many.
+   // Instead a fixed set of seed states (empty, 1, L/2, L-1, L characters, built through the public interface) is
+   // expanded ONE step with the thinned alphabet; successors are checked but not expanded.
+   void seed_states() {
+      FS init; State s0(reinterpret_cast<const char*>(&init), SZ); index.emplace(s0, 0); states.push_back(s0);
+      for (size_t n : {size_t(1), L / 2, L - 1, L}) for (int v = 0; v < 2; ++v) {
+         std::string t(n, 'a'); if (v && n > 0) t[n - 1] = 'b'; FS f; f.assign(t); State s(reinterpret_cast<const char*>(&f), SZ);
+         if (index.find(s) == index.end()) { index.emplace(s, states.size()); states.push_back(s); }
+      }
+   }
    void discover() {
+      if (seeds_only) { seed_states(); return; }
       X<L>* d = new X<L>(2);                      // same code, small argument domains
       FS init; State s0(reinterpret_cast<const char*>(&init), SZ);
       d->index.emplace(s0, 0); d->states.push_back(s0);
@@ -706,6 +718,7 @@ template <size_t L> struct X {
 
 template <size_t L> static void explore(bool thin, const char* label) {
    X<L> x(thin ? 1 : 0);
+   x.seeds_only = thin && L > 16;
    // replay: "L=<L> state=<n> fam=<f> t=<k>"
    if (vf::replaying()) {
       unsigned l, st, fam; unsigned long long t;
@@ -730,7 +743,7 @@ template <size_t L> static void explore(bool thin, const char* label) {
       x.run_family(st, fam);
       if (vf::deadline_hit()) break;
    }
-   for (size_t st = known; st < x.states.size() && any; ++st) {          // late states: expand completely, locally
+   for (size_t st = known; st < x.states.size() && any && !x.seeds_only; ++st) {          // late states: expand completely, locally
       vf::count("late_states");
       for (int fam = 0; fam < X<L>::NFAM; ++fam) if (x.family_applies(st, fam)) x.run_family(st, fam);
       if (vf::deadline_hit()) break;
@@ -746,7 +759,7 @@ template <size_t L> static void explore(bool thin, const char* label) {
          vf::count("states", x.states.size());
          for (size_t i = 0; i < x.states.size(); ++i) vf::nontrivial(std::string(label) + x.states[i]);
          vf::sample(std::string(label) + ": " + std::to_string(x.states.size()) + " states (object images), e.g. \"" + std::string(x.states[x.states.size() / 2].data(), strnlen(x.states[x.states.size() / 2].data(), L + 1)) + "\"; families 0-7 x all argument tuples from every state");
-         vf::fact(std::string("closed_") + label, "state set closed under all mutators: " + std::to_string(x.states.size()) + " states");
+         vf::fact(std::string(x.seeds_only ? "seeds_" : "closed_") + label, x.seeds_only ? "seed states expanded one step (no closure): " + std::to_string(known) + " seeds" : "state set closed under all mutators: " + std::to_string(x.states.size()) + " states");
       }
    }
 }
